@@ -1080,7 +1080,10 @@ pub fn round_c11(rt: &tokio::runtime::Runtime, hooks: &Hooks, seed: u64) -> Valu
         }
         if inconclusive.is_none() {
             if let Some(m) = e_cut.iter().find(|m| !all_delivered.contains(m)) {
-                let past = got_v.iter().filter(|f| f.topic == "xs.pulse" && f.id.to_u128() > *m).count();
+                // "past" is a position in this stream: after the last frame it delivered (a pulse that is merely
+                // *created* later than m while older history is still being replayed is not past m)
+                let last_real = got_v.iter().rposition(|f| !is_synth(f)).map(|i| i + 1).unwrap_or(0);
+                let past = got_v[last_real..].iter().filter(|f| f.topic == "xs.pulse" && f.id.to_u128() > *m).count();
                 if past > 2 {
                     violation(&mut out, &["C11"], "gap/pulses-continue-past-undelivered-frame", json!({"round": d, "pulses_past_it": past, "undelivered": crate::model::id_str(*m), "mode": "normal"}));
                 }
@@ -1192,7 +1195,10 @@ fn round_c11_slow(rt: &tokio::runtime::Runtime, hooks: &Hooks, seed: u64) -> Val
     {
         let all_delivered: BTreeSet<u128> = real.iter().copied().collect();
         if let Some(m) = expected.iter().find(|m| !all_delivered.contains(m)) {
-            let past: Vec<&Frame> = got.iter().filter(|f| f.topic == "xs.pulse" && f.id.to_u128() > *m).collect();
+            // "past" is a position in this stream: after the last frame it delivered. While the consumer is still
+            // being fed older history, heartbeats created after m are not past m.
+            let last_real = got.iter().rposition(|f| !is_synth(f)).map(|i| i + 1).unwrap_or(0);
+            let past: Vec<&Frame> = got[last_real..].iter().filter(|f| f.topic == "xs.pulse" && f.id.to_u128() > *m).collect();
             if past.len() > 2 {
                 violation(&mut out, &["C11"], "gap/pulses-continue-past-undelivered-frame", json!({"round": d, "pulses_past_it": past.len(), "first_pulse_id": past[0].id.to_string(), "undelivered": crate::model::id_str(*m), "mode": "lag"}));
             }
